@@ -37,4 +37,87 @@ theorem sfb1dCh_eq_idwt (m : Mode) (hm : m = .zero ∨ m = .symmetric ∨ m = .r
   rcases hm with rfl | rfl | rfl | rfl <;>
     simp only [sfb1dCh, Spec.idwt, hguard, hfit', if_false] <;> rw [key]
 
+/-- one step of the level loop on the specification side (what `pywt.waverec` does per level) -/
+def stepS (m : Mode) (g0 g1 a : List R) (d : Option (List R)) : List R :=
+  let dv := match d with
+    | some v => v
+    | none => a.map fun _ => (0:R)
+  let a' := if a.length = dv.length + 1 then a.take (a.length - 1) else a
+  Spec.idwt m g0 g1 a' dv
+
+theorem waverec_eq_foldl (m : Mode) (g0 g1 a : List R) (ds : List (Option (List R))) :
+    Spec.waverec m g0 g1 a ds = ds.reverse.foldl (stepS m g0 g1) a := rfl
+
+/-- shapes a forward transform produces: at every level the approximation is as long as the detail
+band or one sample longer (the un-pad case), the band is non-empty and long enough for the filter -/
+def StepOK (g0 : List R) (a : List R) (d : Option (List R)) : Prop :=
+  let n := match d with
+    | some v => v.length
+    | none => a.length
+  (a.length = n ∨ a.length = n + 1) ∧ 1 ≤ n ∧ 2 * (g0.length - 2) + 1 ≤ 2 * (n - 1) + g0.length
+
+def Compat (m : Mode) (g0 g1 : List R) : List R → List (Option (List R)) → Prop
+  | _, [] => True
+  | a, d :: rest => StepOK g0 a d ∧ Compat m g0 g1 (stepS m g0 g1 a d) rest
+
+/-- one level: `DWT1DInverse`'s loop body (None → zeros, un-pad, `SFB1D`) on one channel is the
+specification's step -/
+theorem step_eq (m : Mode) (hm : m = .zero ∨ m = .symmetric ∨ m = .reflect ∨ m = .periodic)
+    (g0 g1 : List R) (hL : 2 ≤ g0.length) (hg : g1.length = g0.length) (a : List R) (d : Option (List R))
+    (hok : StepOK g0 a d) :
+    DWT1DInverse_step m g0 g1 [a] (d.map fun v => [v]) = some [stepS m g0 g1 a d] := by
+  unfold DWT1DInverse_step stepS
+  cases d with
+  | some v =>
+    obtain ⟨hlen, hn, hfit⟩ := hok
+    simp only [Option.map_some, List.headD_cons, List.map_cons, List.map_nil] at *
+    by_cases hgt : a.length > v.length
+    · have h1 : a.length = v.length + 1 := by omega
+      simp only [hgt, if_true, h1]
+      unfold SFB1D_forward sfb1dT sfb1dImg
+      simp [List.range, List.range.loop]
+      rw [sfb1dCh_eq_idwt m hm g0 g1 _ v hL hg (by simp; omega) (by simp; omega) (by simp; omega)]
+      simp
+    · have h1 : a.length = v.length := by omega
+      have h2 : ¬ (a.length = v.length + 1) := by omega
+      simp only [hgt, if_false, h2]
+      unfold SFB1D_forward sfb1dT sfb1dImg
+      simp [List.range, List.range.loop]
+      rw [sfb1dCh_eq_idwt m hm g0 g1 a v hL hg (by omega) (by omega) (by rw [h1]; exact hfit)]
+      simp
+  | none =>
+    obtain ⟨_, hn, hfit⟩ := hok
+    simp only [Option.map_none, List.headD_cons, List.map_cons, List.map_nil, List.length_map] at *
+    have h2 : ¬ (a.length = a.length + 1) := by omega
+    simp only [gt_iff_lt, lt_self_iff_false, if_false, h2]
+    unfold SFB1D_forward sfb1dT sfb1dImg
+    simp [List.range, List.range.loop]
+    rw [sfb1dCh_eq_idwt m hm g0 g1 a (List.replicate a.length 0) hL hg hn (by simp) hfit]
+    simp
+
+/-- the J-level 1-D synthesis of one channel is PyWavelets' `waverec` on **every** pyramid of
+forward-compatible shape — whether or not it is the transform of a signal — including `None`
+levels (zeros) and the un-pad rule, for every number of levels; modes zero / symmetric / reflect /
+periodic. By induction over the levels. -/
+theorem DWT1DInverse_eq_waverec (m : Mode) (hm : m = .zero ∨ m = .symmetric ∨ m = .reflect ∨ m = .periodic)
+    (g0 g1 : List R) (hL : 2 ≤ g0.length) (hg : g1.length = g0.length) (a : List R) (ds : List (Option (List R)))
+    (hc : Compat m g0 g1 a ds.reverse) :
+    DWT1DInverse m g0 g1 [a] (ds.map fun d => d.map fun v => [v]) = some [Spec.waverec m g0 g1 a ds] := by
+  rw [waverec_eq_foldl]
+  unfold DWT1DInverse
+  rw [← List.map_reverse]
+  generalize ds.reverse = rs at hc
+  induction rs generalizing a with
+  | nil => simp
+  | cons d rest ih =>
+    obtain ⟨hok, hrest⟩ := hc
+    simp only [List.map_cons, List.foldlM_cons, List.foldl_cons]
+    rw [step_eq m hm g0 g1 hL hg a d hok]
+    simp only [Option.bind_eq_bind, Option.bind_some]
+    exact ih _ hrest
+
+/-- non-vacuity: a concrete two-level integer pyramid with a None level is compatible -/
+example : Compat (R := Int) .zero [1, 2, 1, 1] [1, -1, 2, 1] [1, 2, 3] [none, some [4, 5, 6, 7]] := by
+  simp [Compat, StepOK, stepS, Spec.idwt]
+
 end WV.C10
